@@ -113,11 +113,14 @@ def real_runs(chk, rng):
             if int_round[0] % 3 == 1:
                 speeds = [3, 1]
             seq = make_sequence(n)
-            ip = Profile.round(diameter=30e-3, temperature=1473.15, material=["C45", "steel"], length=1)
+            # every incoming profile: also one that already carries a velocity (given by the caller, or because it is the profile returned
+            # by a separately solved upstream line) which has nothing to do with the speeds of this calculation
+            carried = {} if int_round[0] % 2 else {'velocity': rng.choice([0.3, 5.0, 11])}
+            ip = Profile.round(diameter=30e-3, temperature=1473.15, material=["C45", "steel"], length=1, **carried)
             ctx = [RollPass.Profile.flow_stress(flow_stress)]
             if spread:
                 ctx.append(RollPass.OutProfile.width(spread_width if spread == 'draught' else spread_width_v))
-            label = f"{n} passes{' with ' + spread + '-dependent spread model' if spread else ''}"
+            label = f"{n} passes{' with ' + spread + '-dependent spread model' if spread else ''}{', incoming profile carries velocity ' + str(carried['velocity']) if carried else ''}"
             try:
                 for step, (m, speed) in enumerate([(mode, speeds[0]), (mode, speeds[1]), ('forward' if mode == 'backward' else 'backward', speeds[0])]):
                     try:
